@@ -35,12 +35,12 @@ ENGINES = {
 
 # per engine, per tier: (max runs, soft wall budget in seconds)
 TIERS = {
-    "c19a": {"quick": (400, 60), "thorough": (12000, 900)},
-    "c19b": {"quick": (96, 70), "thorough": (3000, 1200)},
-    "c13": {"quick": (6000, 70), "thorough": (200000, 1200)},
-    "c14": {"quick": (3000, 70), "thorough": (100000, 1200)},
-    "c07": {"quick": (3000, 80), "thorough": (80000, 1500)},
-    "c16": {"quick": (640, 90), "thorough": (20000, 1800)},
+    "c19a": {"quick": (2000, 60), "thorough": (60000, 1200)},
+    "c19b": {"quick": (96, 75), "thorough": (4000, 2400)},
+    "c13": {"quick": (20000, 70), "thorough": (600000, 1800)},
+    "c14": {"quick": (8000, 70), "thorough": (300000, 1800)},
+    "c07": {"quick": (6000, 80), "thorough": (200000, 1800)},
+    "c16": {"quick": (2000, 80), "thorough": (60000, 2400)},
 }
 
 RUN_TIMEOUT_S = 300  # a single simulated run must never take this long
